@@ -278,7 +278,7 @@ func (sw Sweeper) RetentionDurationMinusCutoff() time.Duration {
 	if sw.RetentionLoadCutoffDuration > 0 {
 		buffer := sw.RetentionLoadCutoffDuration
 		// Safeguard: never more than 75% of the retention duration
-		maxBuffer := retention * 3 / 4
+		maxBuffer := retention / 4 * 3 // in this order: retention*3 overflows beyond ~97 years
 		if buffer > maxBuffer {
 			buffer = maxBuffer
 		}
